@@ -179,8 +179,11 @@ func (c *Chain) signClaims(tk Ticket, claims jwt.MapClaims) string {
 }
 
 // LeaderKey returns the key-universe index of the current leader key (or 0).
-func (c *Chain) LeaderKey() int {
-	kv, found := c.App.OVMKeeper.GetKeyVault(c.Ctx())
+func (c *Chain) LeaderKey() int { return c.leaderKeyAt(c.Ctx()) }
+
+// leaderKeyAt reads the leader from the given context (the committed state between two blocks).
+func (c *Chain) leaderKeyAt(ctx sdk.Context) int {
+	kv, found := c.App.OVMKeeper.GetKeyVault(ctx)
 	if found && len(kv.PublicKeys) > 0 {
 		for i, k := range c.Keys {
 			if strings.TrimSpace(k.PEM) == strings.TrimSpace(kv.PublicKeys[0]) {
